@@ -40,6 +40,11 @@ def getSlice (bv b e : Nat) : Except Err Nat :=
     let mask := (limit - 1) <<< b
     .ok ((bv &&& mask) >>> b)
 
+/-- `x &= mask ^ (((1 << w) - 1) << b); x |= v << b` with `mask = (1 << size) - 1`: the two statements
+    with which `Token.__setitem__` (and, byte by byte, `BitView.__setitem__`) overwrite a slice -/
+def writeBits (size bv b w x : Nat) : Nat :=
+  (bv &&& (((1 <<< size) - 1) ^^^ (((1 <<< w) - 1) <<< b))) ||| (x <<< b)
+
 /-- `Token.__setitem__(slice(b, e), value)` of a token of `size` bits (`self.mask = (1 << size) - 1`):
     ```
     bits = e - b; assert bits > 0; limit = 1 << bits
@@ -59,8 +64,7 @@ def setSlice (size bv b e : Nat) (value : Int) : Except Err Nat :=
       let value2 : Int := if value < 0 then (limit : Int) + value else value
       if ¬ (value2 ≥ 0 ∧ value2 < (limit : Int)) then .error .AssertionError
       else
-        let mask := ((1 <<< size) - 1) ^^^ ((limit - 1) <<< b)
-        .ok ((bv &&& mask) ||| (value2.toNat <<< b))
+        .ok (writeBits size bv b bits value2.toNat)
 
 /-- `bit_concat` getter over the (flattened) partials, most significant first:
     `v = 0; for at in partials: v = v << at._bitsize; v = v | (at.__get__(s) & at._mask)` -/
